@@ -264,7 +264,7 @@ impl<'a> Walk<'a> {
                     pkt.bytes = self.resp.bad_auth(&id, method, integ, err);
                 }
                 Plan::Challenge401 { algs, anonymity, cookie, new_realm } => {
-                    let variant = if rng.chance(1, 8) { 1 + rng.below(3) as u8 } else { 0 };
+                    let variant = if rng.chance(1, 5) { 1 + rng.below(5) as u8 } else { 0 };
                     let (b, st) = self.resp.challenge_variant(rng, &id, method, algs, anonymity, cookie, new_realm, variant);
                     pkt.bytes = b;
                     pkt.lt_on_retry = Some(st);
@@ -272,6 +272,13 @@ impl<'a> Walk<'a> {
                         pkt.label = format!("challenge-401-variant{}", variant);
                     }
                 }
+                Plan::Stale438 if rng.chance(1, 4) => match self.resp.stale_bad_integrity(&id, method) {
+                    Some(b) => {
+                        pkt.bytes = b;
+                        pkt.label = "stale-438-bad-integrity".into();
+                    }
+                    None => continue,
+                },
                 Plan::Stale438 => match self.resp.stale(&id, method, rng.bool()) {
                     Some((b, nonce)) => {
                         pkt.bytes = b;
